@@ -83,10 +83,13 @@ pub fn parent(a: &Args) {
     };
     yaml.push_str(&route::loggers_yaml(&lg));
     std::fs::write(dir.join("fibre_logging.yaml"), &yaml).unwrap();
-    let threads = if mode == "stress" { 1 + rng.below(3) } else { 1 };
-    let per_thread = if mode == "stress" { 20 + rng.below(60) } else { 60 };
+    // one stress configuration in eight is a burst: four emitters racing for a queue of 1-3 slots for a long time
+    // (the blocking overflow policy must hold under contention, not only when one thread fills the queue)
+    let burst = mode == "stress" && idx % 8 == 5;
+    let threads = if burst { 4 } else if mode == "stress" { 1 + rng.below(3) } else { 1 };
+    let per_thread = if burst { 500 } else if mode == "stress" { 20 + rng.below(60) } else { 60 };
     let total = threads * per_thread;
-    let cut: i64 = if mode == "stress" && !rng.chance(1, 5) { rng.below(total + 1) as i64 } else { -1 };
+    let cut: i64 = if mode == "stress" && !burst && !rng.chance(1, 5) { rng.below(total + 1) as i64 } else { -1 };
     let spec = json!({
       "dir": dir.display().to_string(), "lg": route::loggers_json(&lg), "apps": apps, "threads": threads,
       "per_thread": per_thread, "mode": mode, "cut": cut, "drop": rng.chance(1, 3), "seed": rng.next() % 1_000_000,
